@@ -336,7 +336,14 @@ fn gen_path(rng: &mut Rng) -> String {
         "m:.".to_string()
     } else if r < 40 {
         // boundary lengths of one segment: 65535 is the longest legal one, 65536 must panic
-        if rng.chance(2, 3) { "s:ff*65535".into() } else { "s:61*65536".into() }
+        match rng.below(6) {
+            0 | 1 => "s:ff*65535".into(),
+            2 => "s:61*65536".into(),
+            // the second length byte starts to matter at 256: single- and multi-level encoders must agree there
+            3 => format!("{}:61*{}", if rng.chance(1, 2) { "s" } else { "m" }, rng.pick(&[255u32, 256, 257, 512])),
+            4 => format!("m:{}/61*{}", rng.pick(SEGS), rng.pick(&[255u32, 256, 257])),
+            _ => format!("m:61*{}/{}", rng.pick(&[255u32, 256, 257]), rng.pick(SEGS)),
+        }
     } else {
         let n = rng.range(1, 3);
         let segs: Vec<String> = (0..n).map(|_| rng.pick(SEGS).to_string()).collect();
